@@ -224,11 +224,11 @@ fn tape_json(t: &[u32]) -> J {
 }
 
 #[allow(clippy::too_many_arguments)]
-pub fn write_replay(path: &Path, prop: &str, scen: &dyn Scenario, seed: u64, run: u64, a: Option<&[u32]>, b: Option<&[u32]>, v: Option<&Violation>, o: Option<&RunOutcome>, minimised: bool, shrink_execs: u32) {
+pub fn write_replay(path: &Path, build: &str, prop: &str, scen_name: &str, seed: u64, run: u64, a: Option<&[u32]>, b: Option<&[u32]>, v: Option<&Violation>, o: Option<&RunOutcome>, minimised: bool, shrink_execs: u32) {
     let mut j = J::obj()
         .set("property", J::s(prop))
-        .set("scenario", J::s(scen.name()))
-        .set("build", J::s(build_name()))
+        .set("scenario", J::s(scen_name))
+        .set("build", J::s(build))
         .set("seed", J::i(seed))
         .set("run", J::i(run))
         .set("tape_a", a.map(tape_json).unwrap_or(J::Null))
@@ -427,17 +427,17 @@ pub fn cmd_worker(w: WorkerArgs) -> i32 {
             }
             // shrink, write replay files
             let dir = root().join("replays");
-            let base = format!("{}-{}-{}", w.prop, w.seed, run);
+            let base = format!("{}-{}-{}-{}", w.prop, w.seed, run, build_name());
             let orig_path = dir.join(format!("{}.orig.json", base));
             let to = run_one(scen, Tape::replay(o.tape_a.clone(), o.tape_b.clone()), true);
-            write_replay(&orig_path, &w.prop, scen, w.seed, run, Some(&o.tape_a), Some(&o.tape_b), Some(v), Some(&to), false, 0);
+            write_replay(&orig_path, build_name(), &w.prop, scen.name(), w.seed, run, Some(&o.tape_a), Some(&o.tape_b), Some(v), Some(&to), false, 0);
             let (sa, sb, execs) = shrink(scen, &w.prop, &v.class, o.tape_a.clone(), o.tape_b.clone());
             let so = run_one(scen, Tape::replay(sa.clone(), sb.clone()), true);
             let min_path = dir.join(format!("{}.json", base));
             let sv = so.violations.iter().find(|x| x.property == w.prop && x.class == v.class).cloned();
             let usable = sv.is_some();
             if usable {
-                write_replay(&min_path, &w.prop, scen, w.seed, run, Some(&sa), Some(&sb), sv.as_ref(), Some(&so), true, execs);
+                write_replay(&min_path, build_name(), &w.prop, scen.name(), w.seed, run, Some(&sa), Some(&sb), sv.as_ref(), Some(&so), true, execs);
             }
             found.push(
                 J::obj()
@@ -724,11 +724,10 @@ pub fn cmd_check(prop: &str, tier: &str, xen_bin: Option<&str>) -> i32 {
         }
         for (run, sig) in &pr.crashes {
             // a real signal: confirm by re-running that single run in a fresh process
-            let sc = scen::find_scenario(&pr.scenario);
-            let path = root().join("replays").join(format!("{}-{}-{}.crash.json", prop, seed, run));
-            if let Some(sc) = sc {
+            let path = root().join("replays").join(format!("{}-{}-{}-{}.crash.json", prop, seed, run, if pr.xen { "xen" } else { "unix" }));
+            {
                 let v = Violation { property: "", class: format!("{}/crash", prop), fingerprint: format!("signal {}", sig), message: format!("worker killed by signal {} during this run", sig) };
-                write_replay(&path, prop, sc, seed, *run, None, None, Some(&v), None, false, 0);
+                write_replay(&path, if pr.xen { "xen" } else { "unix" }, prop, &pr.scenario, seed, *run, None, None, Some(&v), None, false, 0);
             }
             let st = Command::new(exe).arg("replay").arg(&path).stdin(Stdio::null()).stdout(Stdio::null()).status();
             let died = {
